@@ -33,6 +33,13 @@ const OP_TIMEOUT: Duration = Duration::from_secs(8);
 /// true in the `fh-off` crate, which compiles this file against fastrace without `enable`
 const OFF: bool = cfg!(feature = "off");
 
+/// the number of threads this process has created so far (std's `ThreadId`s are handed out one after another):
+/// the id of a probe thread spawned now
+fn thread_counter() -> u64 {
+    let id = std::thread::spawn(|| format!("{:?}", std::thread::current().id())).join().unwrap_or_default();
+    id.trim_start_matches("ThreadId(").trim_end_matches(')').parse().unwrap_or(0)
+}
+
 // ---------------------------------------------------------------------------------- globals
 
 static SPANS: Mutex<Option<HashMap<String, Span>>> = Mutex::new(None);
@@ -1005,6 +1012,10 @@ fn run_case() {
             emit("bad-op parse".into());
             continue;
         };
+        // the statically disabled build creates no thread at all: count the threads created during every call
+        // (the harness itself creates one for `spawn` and one for `flushBegin`)
+        let threads_before = if OFF { thread_counter() } else { 0 };
+        let own_threads: u64 = if w.len() > 1 && (w[1] == "flushBegin" || (w[1] == "spawn" && !threads.contains_key(&k))) { 1 } else { 0 };
         let res: String = match &w[1..] {
             ["setReporter", c] => {
                 if reporter_set {
@@ -1242,6 +1253,16 @@ fn run_case() {
                     }
                 }
             }
+        };
+        let res = if OFF {
+            let created = thread_counter().saturating_sub(threads_before + 1 + own_threads);
+            if created > 0 {
+                format!("{} [the call created {} thread(s)]", res, created)
+            } else {
+                res
+            }
+        } else {
+            res
         };
         let dead = res == "timeout";
         let res = if times {
